@@ -220,11 +220,15 @@ func (f Fields) AsKVString() string {
 			if idx > 0 {
 				sb.WriteByte(kvstring.FieldsSeparator[0])
 			}
-			sb.WriteString(string(f[idx+1 : idx+1+n]))
+			k := string(f[idx+1 : idx+1+n])
+			if kvNeedsQuote(k, true, idx == 0) {
+				k = strconv.Quote(k)
+			}
+			sb.WriteString(k)
 			sb.WriteByte(kvstring.KeyValueSeparator[0])
 		} else {
 			v := string(f[idx+1 : idx+1+n])
-			if strings.IndexByte(v, kvstring.FieldsSeparator[0]) >= 0 || strings.IndexByte(v, kvstring.KeyValueSeparator[0]) >= 0 {
+			if kvNeedsQuote(v, false, idx+n+1 == len(f)) {
 				v = strconv.Quote(v)
 			}
 			sb.WriteString(v)
@@ -233,4 +237,25 @@ func (f Fields) AsKVString() string {
 		idx += n + 1
 	}
 	return sb.String()
+}
+
+// kvNeedsQuote returns whether the name or the value s must be written as a quoted literal, so
+// that NewFieldsFromKVString gives the same string back: separators and double quotes (the
+// splitter treats them specially), leading or trailing spaces (trimmed by the parser),
+// a leading back quote (the parser would unquote it), an empty name, the opening curly brace
+// at the beginning of the first name and the closing one at the end of the last value.
+func kvNeedsQuote(s string, name, edge bool) bool {
+	if len(s) == 0 {
+		return name
+	}
+	if strings.IndexByte(s, kvstring.FieldsSeparator[0]) >= 0 || strings.IndexByte(s, kvstring.KeyValueSeparator[0]) >= 0 || strings.IndexByte(s, '"') >= 0 {
+		return true
+	}
+	if s[0] == ' ' || s[len(s)-1] == ' ' || s[0] == '`' {
+		return true
+	}
+	if edge {
+		return (name && s[0] == '{') || (!name && s[len(s)-1] == '}')
+	}
+	return false
 }
